@@ -156,6 +156,19 @@ theorem complex_key_regression :
     readDoc "? []\n: - 1\n  - 2\n".toList = some (erase (.map true [(.seq [], .seq [.int 1, .int 2])])) :=
   ⟨rfl, by decide +kernel⟩
 
+/-- (regression, fix b697ff3) the name of an enum variant with data is the key of `Variant: payload`: a
+name that is a YAML 1.1 boolean spelling is quoted like every other mapping key (`Y: 1` used to be
+written and read back with the key `true`). -/
+theorem variant_key_yaml11_bool_regression :
+    emit {} implFns (.newtypeVariant "Y".toList (.int 1)) = .ok "\"Y\": 1\n".toList ∧
+    readDoc "\"Y\": 1\n".toList = some (erase (.newtypeVariant "Y".toList (.int 1))) ∧
+    readDoc "Y: 1\n".toList = some (.map [(.bool true, .int 1)]) ∧
+    emit {} implFns (.seq [SVal.structVariantOf "No".toList [("a".toList, .int 1)], .tupleVariant "on".toList [.int 1, .int 2]]) =
+      .ok "- \"No\":\n    a: 1\n- \"on\":\n    - 1\n    - 2\n".toList ∧
+    readDoc "- \"No\":\n    a: 1\n- \"on\":\n    - 1\n    - 2\n".toList =
+      some (erase (.seq [SVal.structVariantOf "No".toList [("a".toList, .int 1)], .tupleVariant "on".toList [.int 1, .int 2]])) :=
+  ⟨rfl, by decide +kernel, by decide +kernel, rfl, by decide +kernel⟩
+
 /-! ## counterexample (F): the defect class still present -/
 
 /-- (F) `empty_as_braces = false`: an empty sequence is written as nothing and reads as null (the
